@@ -220,19 +220,47 @@ def expectedSortCalls : List (String × String × String × String × String) :=
 ]
 
 /-- the audited list of UPPER_CASE tables that are mutated after their creation.  Audit:
-    * `_Dialect.__new__ : gen_cls.TRANSFORMS.pop` prunes the generator's JSON-path transforms when the DIALECT class is created —
+    * `_Dialect.__new__ : gen_cls.TRANSFORMS = {…}` (a rebind; it was `.pop` before the thread-safety repair) prunes the generator's JSON-path transforms when the DIALECT class is created —
       later than the generator class itself, so a class that copied `TRANSFORMS` in between keeps the unpruned entries
       (AthenaTrinoGenerator copying TrinoGenerator.TRANSFORMS: known finding / fix C15-athena-trino-transforms-order);
     * `Parser._parse_connect_with_prior` puts "PRIOR" into the class-level `NO_PAREN_FUNCTION_PARSERS` for the duration of one
       sub-parse and pops it again — not on the exception path before the repair (known finding / fix C15-connect-prior-table-restore);
+    * `Properties.PROPERTY_TO_NAME = {…}` is assigned once, at module level right after the class statement in the same module
+      (import time, before anything can copy it);
     * `_DISPATCH_CACHE` and `cls._COMMENTS` are the fills covered by `dispatch_cache_idempotent` / class construction. -/
 def expectedMutatedClassTables : List (String × String × String × String) := [
-  ("sqlglot/dialects/dialect.py", "_Dialect.__new__", "gen_cls.TRANSFORMS", "pop"),
+  ("sqlglot/dialects/dialect.py", "_Dialect.__new__", "gen_cls.TRANSFORMS", "rebind"),
+  ("sqlglot/expressions/properties.py", "<module>", "Properties.PROPERTY_TO_NAME", "rebind"),
   ("sqlglot/generator.py", "Generator.__init__", "_DISPATCH_CACHE", "setitem"),
   ("sqlglot/parser.py", "Parser._parse_connect_with_prior", "self.NO_PAREN_FUNCTION_PARSERS", "pop"),
   ("sqlglot/parser.py", "Parser._parse_connect_with_prior", "self.NO_PAREN_FUNCTION_PARSERS", "setitem"),
   ("sqlglot/tokens.py", "_TokenizerBase.__init_subclass__", "cls._COMMENTS", "setitem")
 ]
+
+/-! ### methods that overwrite a configuration field for the duration of a sub-call (`_try_parse` and `error_level`) -/
+
+/-- how a block of Python code is left -/
+inductive Exit where
+  | normal | parseError | otherException
+  deriving DecidableEq, Repr
+
+/-- where the assignment that puts the saved value back sits -/
+inductive RestorePlace where
+  | finallyBlock        -- `try: … except ParseError: … finally: self.f = saved`
+  | afterTry            -- `try: … except ParseError: …` followed by plain `self.f = saved`
+  deriving DecidableEq, Repr
+
+/-- `saved = self.f; self.f = forced; try: body() except ParseError: pass [finally | then]: self.f = saved`.
+    The handler catches ParseError only; a `finally` block runs on every exit, code after the try statement only when the
+    try statement completes (normally or through the handler). -/
+def runGuarded (place : RestorePlace) (f forced : String) (body : State → State × Exit) (st : State) : State × Exit :=
+  let saved := st f
+  let r := body (update st f forced)
+  let restore : State → State := fun s => fun g => if g = f then saved else s g
+  match r.2, place with
+  | .otherException, .finallyBlock => (restore r.1, .otherException)
+  | .otherException, .afterTry => (r.1, .otherException)          -- the exception propagates past the plain code
+  | _, _ => (restore r.1, .normal)                                 -- completed or ParseError caught: both variants restore
 
 /-- explicit snapshot (NOT regenerated) of the per-call part of Generator.__init__ / Generator.generate before the repair
     "Generator.generate restarts the generated-alias counter": kept only as a witness of why the reset is needed -/
